@@ -54,6 +54,8 @@ def msg_lines(i):
 def mutation_lines(kind, i):
     if kind == "node":
         return [f"{90 + i};255;0;0;17;2.2\n"]
+    if kind == "idreq":
+        return ["255;255;3;0;3;\n"]          # a node that appears through id assignment (no callback, no alert)
     if kind == "child":
         return ["1;255;0;0;17;2.2\n", f"1;{10 + i};0;0;6;late\n"]
     vt = [24, 25, 26, 27, 28, 47, 1, 4, 6, 8, 9, 10, 12, 13, 14, 17, 18][i % 17]   # accept the payload "77"
@@ -423,7 +425,7 @@ def plans(rng, tier):
     out = []
     faults = [("io", op) for op in IO_OPS] + [("denied",)]
     nmax = 3 if tier == "quick" else 8
-    for kind in ("node", "child", "value"):
+    for kind in ("node", "child", "value", "idreq"):
         for n in range(1, nmax + 1):
             faults.append(("mut", kind, n))
     for f in faults:
